@@ -328,6 +328,10 @@ def select(items, n, seed, keep_first=0):
     """Deterministic subset of size n (seeded); keeps the first `keep_first` items always."""
     if n is None or len(items) <= n:
         return list(items)
+    # one-of-a-kind programs are never sampled away
+    always = [x for x in items if isinstance(x, dict) and x.get("family") in ("WIDE", "NOPARAM", "LAYOUT", "CORPUS", "UNUSED", "CINT")]
+    items = always + [x for x in items if not (isinstance(x, dict) and x.get("family") in ("WIDE", "NOPARAM", "LAYOUT", "CORPUS", "UNUSED", "CINT"))]
+    keep_first = max(keep_first, len(always))
     head = items[:keep_first]
     rest = items[keep_first:]
     rnd = random.Random(seed)
